@@ -2,6 +2,7 @@ pub mod c01;
 pub mod c02;
 pub mod c03;
 pub mod c04;
+pub mod c06;
 pub mod c07;
 pub mod c08;
 pub mod c09;
@@ -25,6 +26,7 @@ pub fn dispatch(id: &str, args: &RunArgs) -> i32 {
     match id {
         "C01" => run(&c01::C01, args),
         "C02" => run(&c02::C02, args),
+        "C06" => run(&c06::C06, args),
         "C07" => run(&c07::C07, args),
         "C08" => run(&c08::C08, args),
         "C09" => run(&c09::C09, args),
